@@ -27,6 +27,9 @@ type Conn struct {
 
 	link *Link
 	id   int
+	// writeDelay makes every Write by the broker take this long (a slow network), which widens the windows in
+	// which the broker's reader and writer goroutines contend for the client's write lock
+	writeDelay time.Duration
 }
 
 type simAddr string
@@ -67,6 +70,12 @@ func (c *Conn) Read(p []byte) (int, error) {
 }
 
 func (c *Conn) Write(p []byte) (int, error) {
+	if c.writeDelay >= 100*time.Microsecond {
+		time.Sleep(c.writeDelay)
+	} else if c.writeDelay > 0 {
+		for t0 := time.Now(); time.Since(t0) < c.writeDelay; { // sleeping is too coarse for a few microseconds
+		}
+	}
 	c.mu.Lock()
 	defer c.mu.Unlock()
 	if c.brokerClosed {
